@@ -241,7 +241,8 @@ class TransCheck:
         @st.composite
         def cases(draw, name):
             prof = spec[name].get("profile", profile)
-            prog = draw(gf.programs(prof))
+            strat = spec[name].get("programs", gf.programs)
+            prog = draw(strat(prof))
             tidx = draw(st.integers(0, 11))
             opts = spec[name]["options"](draw) \
                 if "options" in spec[name] else {}
